@@ -219,6 +219,19 @@ pub struct Built {
     pub foreach_seen: Arc<std::sync::Mutex<Vec<i64>>>,
 }
 
+impl Drop for Built {
+    fn drop(&mut self) {
+        for p in self.puppets.iter() {
+            p.teardown();
+        }
+        for p in self.probes.iter() {
+            p.teardown();
+        }
+        self.subscribe.clear();
+        self.world.teardown();
+    }
+}
+
 pub fn items_for(id: usize, n: usize) -> Vec<(Val, V)> {
     (0..n).map(|i| {
         let v = (id as i64) * 1000 + i as i64;
